@@ -243,6 +243,12 @@ func main() {
 				pre, first := g.Targeted()
 				out.Parent = append([]hxc27.Op{pre}, out.Parent...)
 				out.Child = append([]hxc27.Op{first}, out.Child...)
+			} else if i%3 == 1 {
+				// targeted: the FIRST command of the child removes state the parent has just set up
+				// (function, alias, variable, option, dirstack entry, positional parameter)
+				pre, first := g.Undo(i / 3)
+				out.Parent = append(out.Parent, pre)
+				out.Child = append([]hxc27.Op{first}, out.Child...)
 			}
 			childSrc := hxc27.Render(out.Child, "__snap c")
 			var c hxc27.Case
@@ -284,6 +290,12 @@ func main() {
 					cs = append(cs, rep.Replace(hx.Pick(r, wideCmds)))
 				}
 			}
+			if i%3 == 2 {
+				// the first command of the child removes state the parent has just set up
+				pre, first := g.Undo(i / 3)
+				parent = append(parent, pre)
+				cs = append([]string{hxc27.Render([]hxc27.Op{first}, "")}, cs...)
+			}
 			out.ChildS = strings.Join(cs, "; ")
 			tail := "__snap p0; " + wrap(ctx, out.ChildS+"; __snap c") + "; __snap p1"
 			out.Prog = "n=1; r=0; " + hxc27.Render(parent, tail)
@@ -309,12 +321,33 @@ func main() {
 				struct{ ctx, pre, child string }{ctx, "f() { local a=(x y); X; }", "a+=z"},
 			)
 		}
+		// the first command of the child removes what the parent set up: every pair x context x placement
+		undo := [][2]string{
+			{"f() { echo 1; }", "unset -f f"}, {"f() { echo 1; }", "unset f"}, {"f() { echo 1; }", "f() { echo 2; }"},
+			{"alias ll='echo hi'", "unalias ll"}, {"alias ll='echo hi'", "unalias -a"}, {"a=1", "unset a"}, {"a=(x y)", "unset 'a[0]'"},
+			{"declare -A m=([k]=v)", "unset 'm[k]'"}, {"export a=1", "unset a"}, {"shopt -s extglob", "shopt -u extglob"},
+			{"set -o noglob", "set +o noglob"}, {"pushd " + dirs[1], "popd"}, {"set -- p q", "shift"}, {"set -- p q", "set --"},
+			{"cd " + dirs[1], "cd " + dirs[2]},
+		}
+		for _, ctx := range []string{"subshell", "cmdsubst", "procin", "procout", "pipe", "bg"} {
+			for _, u := range undo {
+				progs = append(progs,
+					struct{ ctx, pre, child string }{ctx, u[0], u[1]},
+					struct{ ctx, pre, child string }{ctx, u[0], "( " + u[1] + "; : )"},
+					struct{ ctx, pre, child string }{ctx, u[0], ": \"$( " + u[1] + " )\""},
+					struct{ ctx, pre, child string }{ctx, u[0] + "; w() { X; }", u[1]},
+					struct{ ctx, pre, child string }{ctx, u[0], "w2() { " + u[1] + "; }; w2"},
+				)
+			}
+		}
 		progs = append(progs, struct{ ctx, pre, child string }{"pipe_last", "a=1", "a=5"})
 		progs = append(progs, struct{ ctx, pre, child string }{"pipe_last", "b=(x y)", "b+=(z); cd /"})
 		for i, p := range progs {
 			out := Out{ID: i, Mode: "witness", Ctx: p.ctx, Bg: isBg(p.ctx)}
 			body := "__snap p0; " + wrap(p.ctx, p.child+"; __snap c") + "; __snap p1"
-			if strings.Contains(p.pre, "X") {
+			if strings.Contains(p.pre, "w() { X; }") {
+				out.Prog = strings.Replace(p.pre, "X", body, 1) + "; w"
+			} else if strings.Contains(p.pre, "X") {
 				out.Prog = strings.Replace(p.pre, "X", body, 1) + "; f"
 			} else {
 				out.Prog = p.pre + "; " + body
